@@ -23,6 +23,51 @@ CLAIMED = {
         technique="contract-based deductive verification: sidecar contracts on the real C functions, VCs from clang's "
                   "AST, z3 bit-vectors",
     ),
+    'C03': dict(
+        category='proof',
+        text="All obligations of the integer store paths are discharged for every integer type and every Python int: "
+             "_my_PyLong_As(Unsigned)LongLong, convert_from_object/convert_to_object (integer, _Bool), the eight "
+             "API-mode converters _cffi_to_c_i8..u64 and _cffi_to_c__Bool, the callback-result widening "
+             "convert_from_object_fficallback, and the header macros _cffi_to_c_int/_cffi_from_c_int instantiated "
+             "from the real _cffi_include.h for 42 integer type names with every _cffi_exports[k] resolved against "
+             "the backend's cffi_exports[] initialiser. Lemmas: read-after-store returns v; ABI and API ranges agree.",
+        design_ref='DESIGN.md section 4 C03',
+        note=COMMON_NOTE + "Scope: Python-int sources; objects converted through __int__/__index__ run arbitrary "
+             "code and are outside the proved scope. Not decided: libffi delivering the widened callback result; "
+             "the compiled call in generated modules; global-variable and item/field assignment call sites reach "
+             "convert_from_object directly (their dispatch is C16/C20's business).",
+        technique="contract-based deductive verification: sidecar contracts on the real C functions and on header-"
+                  "macro instances, VCs from clang's AST, z3/cvc5 bit-vectors",
+    ),
+    'C04': dict(
+        category='proof',
+        text="cast_to_integer_or_char, do_cast, cdata_int, _new_casted_primitive, new_simple_cdata and the integer "
+             "readers/writers are verified against: stored bytes = x mod 2^(8*sizeof T) (0/1 by non-zeroness for "
+             "_Bool), int() reads them back with T's signedness; two spec lemmas state that this is x reduced "
+             "modulo 2^(8*sizeof T) into T's range. Sources: Python int/bool of any magnitude, 1-byte bytes, "
+             "pointer/array/function cdata (address; exact for 8-byte targets).",
+        design_ref='DESIGN.md section 4 C04',
+        note=COMMON_NOTE + "Not decided here: float sources (truncation happens in the float type's nb_int slot), "
+             "1-character str sources and character target types, and the 'and back' half of pointer<->intptr_t "
+             "(int(cdata) reached through a type slot). try_extract_directfnptr is a trusted cffi function.",
+        technique="contract-based deductive verification: contracts incl. fresh-allocation frames, VCs from clang's "
+                  "AST, z3 bit-vectors",
+    ),
+    'C25': dict(
+        category='proof',
+        text="search_sorted (the binary search behind all four runtime lookups) is verified with a loop invariant "
+             "over an abstract strictly sorted table: it returns i iff entry i equals the key and -1 iff no entry "
+             "does, for every table length, key and name set, and every byte it reads lies in the table, the key's "
+             "search_len bytes or the examined name up to its NUL; the four search_in_* instances pass the table "
+             "invariant through. Counter-models are exhibited through a battery of real generated modules.",
+        design_ref='DESIGN.md section 4 C25',
+        note=COMMON_NOTE + "T-STR/T-ORDER (sign facts of strncmp vs. string order; monotone comparisons on a sorted "
+             "table) are assumed and validated by exhaustive enumeration over short strings each run (bounded). The "
+             "table invariant itself (generator sorts names in strcmp order, names distinct) is the precondition; "
+             "the Python side that establishes it is covered when the pyvc part of this check is present.",
+        technique="contract-based deductive verification: binary-search loop invariant, explicit instances of the "
+                  "quantified table invariant, memory-safety obligations; z3 + cvc5 portfolio",
+    ),
 }
 
 NOT_APPLICABLE = {
